@@ -106,6 +106,7 @@ impl Popen {
         stdin is Merge ==> res is Err, //[C05]
         stdout is Merge && stderr is Merge ==> res is Err, //[C05]
         final(w).s.forks == old(w).s.forks && !final(w).s.in_child && final(w).s.child_unreaped == old(w).s.child_unreaped && final(w).s.launch == old(w).s.launch,
+        final(w).s.want == old(w).s.want && final(w).s.status_read_failed == old(w).s.status_read_failed,
         final(self).child_state == old(self).child_state && final(self).detached == old(self).detached,
         res is Ok ==> {
             let (cin, cout, cerr) = res->Ok_0;
@@ -130,6 +131,7 @@ impl Popen {
         requires !old(w).s.in_child,
         ensures
             lib_only(old(w).s) ==> lib_only(final(w).s),
+            final(w).s.want == old(w).s.want && final(w).s.status_read_failed == old(w).s.status_read_failed,
             final(w).s.forks == old(w).s.forks && !final(w).s.in_child && final(w).s.child_unreaped == old(w).s.child_unreaped && final(w).s.launch == old(w).s.launch,
             r is Ok ==> final(parent_ref).is_some() && final(child_ref).is_some()
                     && peer(final(parent_ref).unwrap().obj@) == final(child_ref).unwrap().obj@
@@ -165,6 +167,7 @@ impl Popen {
     requires
         posix::step_pre(*old(w)), old(w).img == img0(),
         ends_ok(child_ends),
+        just_exec.req@.cmd == old(w).s.want.cmd && just_exec.req@.argv == old(w).s.want.argv && just_exec.req@.env.is_some() == old(w).s.want.env.is_some(),
     ensures
         r is Err, //[C07]
         final(w).s.in_child, final(w).s.at_fork_cloexec == old(w).s.at_fork_cloexec,
@@ -189,6 +192,8 @@ impl Popen {
 //@rreplace 2 /drop\(exec_fail_pipe\.(\d)\)/ => /drop_file(exec_fail_pipe.\1, Tracked(w))/
     requires
         !old(w).s.in_child, argv@.len() > 0, !old(w).s.status_read_failed,
+        // what the caller wants to run (C06): the executable if given, else argv[0]; the whole argv; an environment iff given
+        old(w).s.want.cmd == (match config.executable { Some(e) => e.b@, None => argv@[0].b@ }) && old(w).s.want.argv == posix::bytes_of(argv@) && old(w).s.want.env.is_some() == config.env.is_some(),
         old(self).stdin.is_none(), old(self).stdout.is_none(), old(self).stderr.is_none(),
         user_file_ok(config.stdin), user_file_ok(config.stdout), user_file_ok(config.stderr), lib_only(old(w).s),
     ensures
@@ -223,6 +228,7 @@ impl Popen {
 //@rreplace 1 /inst\.os_start\(argv, config, Tracked\(w\)\)\?;/ => /match inst.os_start(argv, config, Tracked(w)) { Ok(v) => v, Err(e) => { let mut inst = inst; inst.drop_impl(Tracked(w)); return Err(e); } };/
     requires
         !old(w).s.in_child, !old(w).s.child_unreaped, !old(w).s.status_read_failed, lib_only(old(w).s),
+        argv@.len() > 0 ==> old(w).s.want.cmd == (match config.executable { Some(e) => e.b@, None => argv@[0].b@ }) && old(w).s.want.argv == posix::bytes_of(argv@) && old(w).s.want.env.is_some() == config.env.is_some(),
         user_file_ok(config.stdin), user_file_ok(config.stdout), user_file_ok(config.stderr),
     ensures
         !final(w).s.in_child,
